@@ -58,8 +58,13 @@ def diagnose(ck, sk_text, gl_text, st_text=None):
     """the reflection lemmas failed: ask Coq for the diagnostics of the checker (names function / class::member)"""
     out = {}
     strip = lambda t: re.sub(r"(?ms)^Lemma \w+ : .*?^Proof\. vm_compute\. reflexivity\. Qed\.$", "", t)
-    v1 = strip(sk_text) + "\nEval vm_compute in (check_program entry_points).\nEval vm_compute in (List.app (coverage_diag entry_points) (List.app (nonvacuous_diag entry_points) (check_lock_impl lock_impl))).\n"
+    v1 = strip(sk_text) + "\nEval vm_compute in (check_program entry_points).\nEval vm_compute in (List.app (coverage_diag entry_points) (List.app (nonvacuous_diag entry_points) (List.app (check_lock_impl lock_impl) (excluded_unsafe_diag entry_points excluded_entry_skeletons)))).\n"
     rc, text = ck.coq_eval(v1, name="c11_diag_skeleton", timeout=600)
+    # which entry points have a violation on LIVE code (a violating model execution exists: C11_checker_complete_on_live_code)
+    v1b = strip(sk_text) + "\nEval vm_compute in (map fst (filter (fun p => viol (written entry_points) false (snd p)) entry_points)).\n"
+    rcb, textb = ck.coq_eval(v1b, name="c11_diag_live", timeout=600)
+    pb = textb.split("     = ")
+    out["entry_points_with_a_violating_model_execution"] = coq_strings(pb[1]) if (rcb == 0 and len(pb) == 2) else []
     parts = text.split("     = ")
     if rc != 0 or len(parts) != 3:
         out["check_program"] = ["<diagnostic evaluation failed: %s>" % re.sub(r"\s+", " ", text[-400:])]
@@ -154,8 +159,10 @@ def tsan_reports(err):
             where = (cands[0] if cands else where.split(" ")[-1]).replace("asmjit::", "")
             loc = os.path.basename(m.group(2)) if m else "?"
             # functions of asmjit on the racing stacks (for the message)
+            gm = re.search(r"Location is global '([^']*)'", blk)
+            glob = re.sub(r"\s*\(\.\d+\)$", "", re.sub(r"asmjit::v\d+_\d+::", "asmjit::", gm.group(1))) if gm else None
             frames = re.findall(r"#\d+ (asmjit::\S+?)\(", blk)
-            reps.append({"kind": kind, "function": where, "location": loc, "asmjit_frames": sorted(set(frames))[:8], "text": blk.strip()[:6000]})
+            reps.append({"kind": kind, "function": where, "location": loc, "asmjit_frames": sorted(set(frames))[:8], "global": glob, "text": blk.strip()[:6000]})
     return reps
 
 
@@ -226,7 +233,9 @@ def sections_check(ck, rng):
     section must equal the model's."""
     exe = ck.build_harness("c11sec", ["c11_sections.cpp"], variant="plain")
     vlib.sh("./mkproject.sh", cwd=vlib.COQ, timeout=120)      # the C09 theories may be newer than this tree's Makefile
-    failed = ck.coq_make(["theories/Jit/JitModel.vo", "theories/Jit/JitCursorModel.vo", "theories/Jit/JitSpec.vo", "theories/Jit/JitVmModel.vo"])
+    ev = open(os.path.join(vlib.COQ, "extract", "Extract_Jit.v")).read()
+    mods = sorted(set(m for line in re.findall(r"(?m)^From Verif Require Import (.*)\.\s*$", ev) for m in line.split())) or ["Jit.JitModel"]
+    failed = ck.coq_make(["theories/%s.vo" % m.replace(".", "/") for m in mods])
     if failed:
         raise RuntimeError("cannot build the C09 model theories needed for the sections replay: %s" % failed)
     model = ck.ocaml_model("Extract_Jit.v", ["zconv.ml", "c09_driver.ml"], name="c09")
@@ -385,6 +394,7 @@ def run(ck):
                 rep["kind"], rep["function"], rep["location"], threads,
                 {"alloc": "JitAllocator", "runtime": "JitRuntime", "codegen": "process (independent code generation)",
                  "ownrt": "process (every thread its own JitRuntime: only the process-wide caches are shared)",
+                 "coldstart": "process (cold start)",
                  "sweep": "process (every thread sweeps all x86 + AArch64 instruction ids through validate / rw-info / features / formatter / _emit)",
                  "multirt": "set of JitRuntimes with different custom allocator parameters"}[mode],
                 "; ".join(alldiag[:3]) or "skeleton obligations hold", ", ".join(rep["asmjit_frames"])),
@@ -409,14 +419,30 @@ def run(ck):
     ck.log("sections: %d critical sections of %d concurrent runs replayed through the C09 model, %d mismatches" % (sec_info["sections"], sec_info["runs"], sec_info["mismatches"]))
 
     # ---------------------------------------------------------------- cold start: OUTSIDE the premise, documented only (never a violation)
-    cold = {"runs": 0, "tsan_reports": 0, "racing_functions": [], "mismatches": 0}
-    for rep in range(2 if ck.tier == "quick" else 12):
-        _, rc, out, err = run_one(exe, ("coldstart", rng.randrange(1, 1 << 30), 16, 0, 0), 120)
+    # Races on the two init-once caches the premise names (vm_info, cpu_info_global) are recorded only. A race on ANY OTHER static during
+    # cold start (an atomic turned plain, an unguarded cache) is not excused by the premise's wording about *host information* being
+    # initialised by the first call of info()/host(): it is reported as a violation with the cold-start parameters as input. When a
+    # statics / globals obligation broke, more cold starts are run to search for that input.
+    PREMISE_GLOBALS = ("vm_info", "cpu_info_global")
+    cold = {"runs": 0, "tsan_reports": 0, "racing_functions": [], "racing_globals": [], "mismatches": 0}
+    n_cold = (2 if ck.tier == "quick" else 12) + (10 if (diags.get("check_statics") or diags.get("check_globals")) else 0)
+    for rep in range(n_cold):
+        ccfg = ("coldstart", rng.randrange(1, 1 << 30), 16, 0, 0)
+        _, rc, out, err = run_one(exe, ccfg, 120)
         cold["runs"] += 1
         reps = tsan_reports(err)
         cold["tsan_reports"] += len(reps)
         cold["racing_functions"] = sorted(set(cold["racing_functions"]) | set(r["function"] for r in reps))
+        cold["racing_globals"] = sorted(set(cold["racing_globals"]) | set(r["global"] for r in reps if r.get("global")))
         cold["mismatches"] += len([l for l in out.splitlines() if l.startswith("MISMATCH")])
+        for rep_ in reps:
+            g = rep_.get("global")
+            if g and not any(re.search(r"(^|::)%s\b" % p, g) for p in PREMISE_GLOBALS):
+                explored_bad = True
+                ck.violation("C11/coldstart/data-race/%s" % g.split("::")[-1],
+                             "ThreadSanitizer %s on static %s in %s during a cold start with 16 threads: not one of the host-information caches the premise excuses [%s]" % (
+                                 rep_["kind"], g, rep_["function"], "; ".join(alldiag[:3]) or "statics obligations hold"),
+                             {"mode": "coldstart", "seed": ccfg[1], "threads": 16, "ops": 0, "opt": 0, "tsan_report": rep_["text"], "skeleton_diagnostics": diags})
 
     # ---------------------------------------------------------------- obligations that broke without an exhibited schedule
     for kind, thm in (("check_program", "C11_all_shared_access_locked"), ("coverage_diag", "C11_skeleton_coverage"), ("check_globals", "C11_no_shared_mutable_globals"),
@@ -425,6 +451,10 @@ def run(ck):
             if kind == "check_statics" and d.split(": ", 1)[-1].startswith("a normal call of") or d.startswith("a normal call of"):
                 thm = "C11_statics_warmup_sets_flags"
             key = "C11/skeleton/" + re.sub(r"\s+", "-", d)[:120]
+            live = diags.get("entry_points_with_a_violating_model_execution", [])
+            if kind == "check_program":
+                d = d + (" [live code: a violating execution of this entry point exists in the model (C11_checker_complete_on_live_code)]"
+                         if any(d.startswith(e + ": ") for e in live) else " [not on live code of the skeleton, or not a lock-discipline diagnostic]")
             ck.violation(key, "%s fails on the regenerated %s: %s%s" % (
                 thm, {"check_globals": "WritableGlobals.v", "check_statics": "StaticsSkeleton.v"}.get(kind, "LockSkeleton.v"), d,
                 "" if explored_bad else " (ThreadSanitizer exploration of %d schedules exhibited no failing schedule)" % len(plan)),
